@@ -57,3 +57,7 @@ Theorem c19_model_phases_agree : forall ca skip k pe,
   (In "hostkey"%string (src_audit_phases false false ca ""%string skip) \/ fst (audit_conns ca skip k pe) = [CFirst]) /\
   (In "rate-check"%string (src_audit_phases false false ca ""%string skip) \/ snd (audit_conns ca skip k pe) = 0%Z).
 Proof. exact model_phases_agree. Qed.
+Theorem c19_tie_extract_ok_rate_check_arguments : extract_ok_rate_check_arguments = true.
+Proof. exact tie_extract_ok_rate_check_arguments. Qed.
+Theorem c19_tie_extract_ok_send_kexinit_defaults : extract_ok_send_kexinit_defaults = true.
+Proof. exact tie_extract_ok_send_kexinit_defaults. Qed.
